@@ -10,12 +10,25 @@ import json
 import math
 import multiprocessing
 import os
+import signal
 import sys
 import time
 import traceback
 from collections import Counter
 
 from vlib import env, findings
+
+CASE_WALL_LIMIT_S = 300     # a single case running this long is a hang of the harness/program: harness error, exit 2
+
+
+class CaseTimeout(Exception):
+    pass
+
+
+def _on_alarm(signum, frame):
+    raise CaseTimeout("a single case exceeded %d s of wall time (hang); reported as a harness error, not a violation"
+                      % CASE_WALL_LIMIT_S)
+
 
 MAX_SAMPLES_PER_CLASS = 2
 MAX_SAMPLES = 10
@@ -159,6 +172,7 @@ def _shard(args):
            "cov": set()}
     try:
         import importlib
+        signal.signal(signal.SIGALRM, _on_alarm)
         mod = importlib.import_module(modname)
         sc = next(s for s in mod.SUBCHECKS if s.name == subname)
         import hypothesis
@@ -175,7 +189,11 @@ def _shard(args):
             if stats.first_fail_t is not None and time.time() - stats.first_fail_t > sc.max_shrink_s:
                 return  # shrink budget used: let the shrinker converge quickly
             try:
-                res = sc.check(drawn)
+                signal.setitimer(signal.ITIMER_REAL, CASE_WALL_LIMIT_S)
+                try:
+                    res = sc.check(drawn)
+                finally:
+                    signal.setitimer(signal.ITIMER_REAL, 0)
             except Exception:   # pylint: disable=broad-except
                 stats.harness_error = {"case": to_jsonable(drawn), "traceback": traceback.format_exc()}
                 raise
